@@ -251,7 +251,10 @@ def _flags_to_try(source:str, flags, auto_flags, mode):
     """
     flags = CompilerFlags(flags)
     if re.search(r"# *type:", source):
-        flags = flags | CompilerFlags('type_comments')
+        yield flags | CompilerFlags('type_comments')
+        # Text that looks like a type comment is an ordinary comment (or part
+        # of a string) in most positions, where parsing it as a type comment
+        # is a syntax error: fall back to parsing without type comments.
     yield flags
     return
 
